@@ -25,7 +25,7 @@ DRIVER = "drv_view"
 DESIGN_REF = "DESIGN.md §4 C17"
 RULE = ("histories of add / remove / re-key / create_linked_view (all jobs, job_ids subsets incl. empty and "
         "singleton, spelled with full or unique abbreviated ids, each accepted selection repeated with an unknown id, path=None / False / format strings with {key}, {job.id}, {job.sp.key}, {{auto}}, {{auto:sep}}) "
-        "over 9 state point universes (homogeneous, heterogeneous, nested + lists, textually colliding 1/'1'/True/1.0, "
+        "over 10 state point universes (homogeneous, heterogeneous, nested + lists, textually colliding 1/'1'/True/1.0, "
         "key or value literally 'job', values '' '.' '..', values and keys with the separator (also after a nested mapping), unicode/space/dot "
         "values); every view op is compared (outcome + full tree incl. link texts) with the Lean model run on the "
         "REAL prior tree, and judged by the direct oracle; distinct = distinct (selected state points, path, prior "
@@ -84,6 +84,9 @@ UNIVERSES = {
     "jobval": dict(keys=["a", "b"], vals=["job", "x", "y", 1, 2]),
     "dots": dict(keys=["a", "b"], vals=["", ".", "..", "x", 1, "a.b", "..."]),
     "sep": dict(keys=["a", "b", "k/1"], vals=[1, 2, "x", "x/y", "y/", "y"]),
+    # a key 'job' that is a scalar in some jobs and a mapping in others (paths job/5/job, job.id/7/job: a sibling whose
+    # name sorts between a leaf and the paths below it)
+    "jobnest": dict(keys=["a", "job", "c"], vals=[1, 1, 3, 5, {"id": 7}, {"id": 5}, {"-x": 1}, "job"], hetero=True),
     # a separator-free nested mapping before / after a top-level value with a separator (key order varies)
     "sepnest": dict(keys=["n", "a", "b"], vals=[1, 2, "x", "x/y", "y"], nested=True, inner=[0, 1, "x"], shuffle=True),
 }
@@ -165,6 +168,10 @@ def gen_history(rng, uname, pfx):
             sel = []
         spec = sticky if rng.random() < 0.7 else rng.choice(specs)
         ops.append(["view", sel, spec] + (["abbr"] if sel and rng.random() < 0.35 else []))
+        if r == 0 and rng.random() < 0.15:
+            # the view directory is moved to another depth (its relative links now lead elsewhere); later views use
+            # the new place and must repair every link
+            ops.append(["mvview"])
         # some changes
         for _ in range(rng.choice([0, 1, 1, 2, 3])):
             m = rng.random()
@@ -474,6 +481,14 @@ def run_case(case, ctx):
                         job.statepoint = op[2]
                     except Exception:
                         pass
+                continue
+            if kind == "mvview":
+                if os.path.isdir(view):
+                    new_view = os.path.join(d, "moved", "deeper", case["pfx"].replace(os.sep, "_") + "_%d" % len(keyparts))
+                    os.makedirs(os.path.dirname(new_view), exist_ok=True)
+                    os.rename(view, new_view)
+                    view = new_view
+                    tags.append("view-moved")
                 continue
             assert kind == "view", op
             sel, path = op[1], op[2]
